@@ -245,3 +245,27 @@ pub fn barycentric_eval(
         &d,
     ))
 }
+
+// ---- forced prover (C02): skip the unsatisfied-circuit check ----
+
+#[cfg(feature = "std")]
+std::thread_local! {
+    static FORCE: core::cell::Cell<bool> = const { core::cell::Cell::new(false) };
+}
+
+/// Switch the calling thread's prover into forced mode: the quotient keeps
+/// only its low `4n + 7` coefficients and the degree check is skipped.
+#[cfg(feature = "std")]
+pub fn set_force(on: bool) {
+    FORCE.with(|f| f.set(on));
+}
+
+#[cfg(feature = "std")]
+pub(crate) fn force_enabled() -> bool {
+    FORCE.with(|f| f.get())
+}
+
+#[cfg(not(feature = "std"))]
+pub(crate) fn force_enabled() -> bool {
+    false
+}
